@@ -3,6 +3,7 @@ package main
 import (
 	"errors"
 	"fmt"
+	"math"
 	"sync"
 	"time"
 
@@ -18,6 +19,15 @@ import (
 //	4 n input  pat        RType{input}.Retry(n); invocation k succeeds iff pat[k] == 1
 //	5 n dms input  pat    RType{input}.RetryWithDelay(n, dms ms)
 //	6 def nA nB  rs  ops  mixed history on one cache: 0 Before(&A) 1 Before(&B) 2 Once 3 Delete("func")
+//	                      4 Flush() 5 sleep until every stored entry has expired (longer than def; def <= 1s)
+//	7 n dms input  pat  durs   RetryWithDelay(n, dms ms) with slow attempts: invocation k takes durs[k]*d/2
+//	8 code off m          After on an extreme counter n = anchor(code)+off
+//	9 def code off m  rs  Before on an extreme counter
+//	10 code off input pat Retry with an extreme n
+//	11 n m                After with a counter of type int8
+//	12 def n m  rs        Before with a counter of type int8
+//	   anchors: 0: 0, 1: MaxInt, 2: MinInt, 3: 2^31, 4: -2^31, 5: 2^62, 6: -2^62 (the model runner reads
+//	   63-bit integers only); final counters of 8 and 9 are reported as [c >> 32, c & 0xffffffff]
 //
 // The k-th invocation of the callback returns rs[k] (0 beyond the list); for
 // Retry it fails with error number k+1 unless pat[k] == 1.  Every callback
@@ -38,12 +48,108 @@ func c18ErrCode(err error) int64 {
 	return -1
 }
 
+func c18Anchor(code int) (int, bool) {
+	switch code {
+	case 0:
+		return 0, true
+	case 1:
+		return math.MaxInt, true
+	case 2:
+		return math.MinInt, true
+	case 3:
+		return 1 << 31, true
+	case 4:
+		return -(1 << 31), true
+	case 5:
+		return 1 << 62, true
+	case 6:
+		return -(1 << 62), true
+	}
+	return 0, false
+}
+
+func c18Split(c int) []int64 { return []int64{int64(c) >> 32, int64(c) & 0xffffffff} }
+
 func c18Final(c *cache.Cache[string, int]) []int64 {
 	it, _ := c.Get("func")
 	if it == nil {
 		return []int64{0, 0}
 	}
 	return []int64{1, int64(it.Val())}
+}
+
+// c18History runs one history of wrapper calls on one cache.  With a positive
+// default expiry the model's clock stands still between two sleeps; the real
+// one does not, so the time spent since the last sleep is measured after every
+// operation: beyond def/2 the run is reported as stalled (an entry might have
+// expired on its own) and the caller executes the case again.  A sleep (op 5)
+// lasts longer than def by the monotonic AND by the wall clock the cache reads.
+func c18History(op int, def int64, nA, nB int, rs, ops []int, split, width8 bool) (res []int64, stalled bool) {
+	c := cache.New[string, int](time.Duration(def), 0)
+	k := 0
+	fn := func() int {
+		v := 0
+		if k < len(rs) {
+			v = rs[k]
+		}
+		k++
+		return v
+	}
+	a8 := int8(nA) // the counter of the int8 instantiation (op 12)
+	w := (&W{}).Int(len(ops))
+	epoch := time.Now()
+	for _, o := range ops {
+		before := k
+		ret := 0
+		switch o {
+		case 0:
+			if width8 {
+				ret = gogu.Before(&a8, c, fn)
+				nA = int(a8)
+			} else {
+				ret = gogu.Before(&nA, c, fn)
+			}
+		case 1:
+			ret = gogu.Before(&nB, c, fn)
+		case 2:
+			ret = gogu.Once[string, int, int](c, fn)
+		case 3:
+			c.Delete("func")
+		case 4:
+			c.Flush()
+		case 5:
+			if def > int64(time.Second) {
+				return []int64{-999999}, false
+			}
+			if def > 0 {
+				wall := time.Now().UnixNano()
+				time.Sleep(time.Duration(def) + time.Duration(def)/8 + time.Millisecond)
+				for time.Now().UnixNano() <= wall+def {
+					time.Sleep(time.Millisecond)
+				}
+			}
+			epoch = time.Now()
+		default:
+			return []int64{-1}, false
+		}
+		if def > 0 && time.Since(epoch) > time.Duration(def)/2 {
+			stalled = true
+		}
+		w.Int(k - before).Int(ret)
+	}
+	res = w.Out()
+	if split {
+		res = append(res, c18Split(nA)...)
+	} else if op == 2 {
+		res = append(res, int64(nA))
+	} else if op == 6 {
+		res = append(res, int64(nA), int64(nB))
+	}
+	res = append(res, c18Final(c)...)
+	if def > 0 && time.Since(epoch) > time.Duration(def)/2 {
+		stalled = true
+	}
+	return res, stalled
 }
 
 func execC18(in []int64) (out []int64) {
@@ -64,11 +170,25 @@ func execC18(in []int64) (out []int64) {
 				gogu.After(&n, func() { runs[i]++ })
 			}
 			res = (&W{}).Ints(runs).Int(n).Out()
-		case 2, 3, 6:
+		case 2, 3, 6, 9, 12:
 			def := r.I64()
 			var nA, nB, m int
 			if op == 2 {
 				nA, m = r.Int(), r.Int()
+			} else if op == 12 {
+				nA, m = r.Int(), r.Int()
+				if nA < math.MinInt8 || nA > math.MaxInt8 {
+					res = []int64{-1}
+					return
+				}
+			} else if op == 9 {
+				code, off := r.Int(), r.Int()
+				a, ok := c18Anchor(code)
+				if !ok {
+					res = []int64{-1}
+					return
+				}
+				nA, m = a+off, r.Int()
 			} else if op == 3 {
 				m = r.Int()
 			} else {
@@ -85,44 +205,22 @@ func execC18(in []int64) (out []int64) {
 				}
 				ops = make([]int, m)
 				for i := range ops {
-					ops[i] = map[int]int{2: 0, 3: 2}[op]
+					ops[i] = map[int]int{2: 0, 9: 0, 12: 0, 3: 2}[op]
 				}
 			}
-			c := cache.New[string, int](time.Duration(def), 0)
-			k := 0
-			fn := func() int {
-				v := 0
-				if k < len(rs) {
-					v = rs[k]
+			// A case whose calls between two sleeps took so long that an entry may have
+			// expired on its own (a stalled machine) says nothing: it is executed again.
+			for try := 0; try < 8; try++ {
+				var stalled bool
+				hop := op
+				if op == 9 || op == 12 {
+					hop = 2
 				}
-				k++
-				return v
-			}
-			w := (&W{}).Int(len(ops))
-			for _, o := range ops {
-				before := k
-				ret := 0
-				switch o {
-				case 0:
-					ret = gogu.Before(&nA, c, fn)
-				case 1:
-					ret = gogu.Before(&nB, c, fn)
-				case 2:
-					ret = gogu.Once[string, int, int](c, fn)
-				case 3:
-					c.Delete("func")
-				default:
-					res = []int64{-1}
-					return
+				res, stalled = c18History(hop, def, nA, nB, rs, ops, op == 9, op == 12)
+				if !stalled {
+					break
 				}
-				w.Int(k - before).Int(ret)
 			}
-			if op == 2 {
-				w.Int(nA)
-			} else if op == 6 {
-				w.Int(nA).Int(nB)
-			}
-			res = append(w.Out(), c18Final(c)...)
 		case 4:
 			n, input := r.Int(), r.Int()
 			pat := r.Ints()
@@ -177,12 +275,125 @@ func execC18(in []int64) (out []int64) {
 					}
 				}
 			}
-			fails := k
-			if err == nil && k > 0 {
-				fails = k - 1
+			// the property asks for a pause BETWEEN consecutive attempts: k-1 pauses
+			// (the code also pauses after the last failure; that is not demanded)
+			gaps := 0
+			if k > 0 {
+				gaps = k - 1
 			}
-			totOK := total >= time.Duration(fails)*d && (len(elapsed) == 0 || total >= elapsed[len(elapsed)-1])
+			totOK := total >= time.Duration(gaps)*d && (len(elapsed) == 0 || total >= elapsed[len(elapsed)-1])
 			res = []int64{int64(k), int64(att), c18ErrCode(err), b2i(inputsOK), b2i(gapsOK), b2i(elOK), b2i(totOK)}
+		case 8:
+			code, off, m := r.Int(), r.Int(), r.Int()
+			a, ok := c18Anchor(code)
+			if !ok || m < 0 || m > 100000 {
+				res = []int64{-1}
+				return
+			}
+			n := a + off
+			runs := make([]int, m)
+			for i := 0; i < m; i++ {
+				i := i
+				gogu.After(&n, func() { runs[i]++ })
+			}
+			res = append((&W{}).Ints(runs).Out(), c18Split(n)...)
+		case 11:
+			n, m := r.Int(), r.Int()
+			if n < math.MinInt8 || n > math.MaxInt8 || m < 0 || m > 100000 {
+				res = []int64{-1}
+				return
+			}
+			n8 := int8(n)
+			runs := make([]int, m)
+			for i := 0; i < m; i++ {
+				i := i
+				gogu.After(&n8, func() { runs[i]++ })
+			}
+			res = (&W{}).Ints(runs).Int(int(n8)).Out()
+		case 10:
+			code, off, input := r.Int(), r.Int(), r.Int()
+			pat := r.Ints()
+			a, ok := c18Anchor(code)
+			if !ok {
+				res = []int64{-1}
+				return
+			}
+			k := 0
+			inputsOK := true
+			fn := func(x int) error {
+				if x != input {
+					inputsOK = false
+				}
+				i := k
+				k++
+				if i > len(pat)+2 {
+					panic("c18: Retry keeps calling a callback that was to stop it") // never loop 2^63 times
+				}
+				if i < len(pat) && pat[i] != 0 {
+					return nil
+				}
+				return &c18Err{i + 1}
+			}
+			att, err := gogu.RType[int]{Input: input}.Retry(a+off, fn)
+			res = []int64{int64(k), int64(att), c18ErrCode(err), b2i(inputsOK)}
+		case 7:
+			n, dms, input := r.Int(), r.Int(), r.Int()
+			pat := r.Ints()
+			durs := r.Ints()
+			d := time.Duration(dms) * time.Millisecond
+			k := 0
+			inputsOK := true
+			var begin, end []time.Time
+			var elapsed, took []time.Duration
+			fn := func(el time.Duration, x int) error {
+				begin = append(begin, time.Now())
+				elapsed = append(elapsed, el)
+				if x != input {
+					inputsOK = false
+				}
+				i := k
+				k++
+				// the attempt itself takes durs[i] half-delays (0, d/2, 2.5 d ...)
+				var cost time.Duration
+				if i < len(durs) && durs[i] > 0 && d > 0 {
+					u := durs[i]
+					if u > 10 {
+						u = 10
+					}
+					cost = time.Duration(u) * d / 2
+					time.Sleep(cost)
+				}
+				took = append(took, cost)
+				end = append(end, time.Now())
+				if i < len(pat) && pat[i] != 0 {
+					return nil
+				}
+				return &c18Err{i + 1}
+			}
+			total, att, err := gogu.RType[int]{Input: input}.RetryWithDelay(n, d, fn)
+			// every check is a lower bound on measured time: load can only make them easier
+			afterReturnOK, startsOK, elOK := true, true, true
+			var need time.Duration
+			for i := 0; i < len(begin); i++ {
+				if elapsed[i] < 0 {
+					elOK = false
+				}
+				if i > 0 {
+					if begin[i].Sub(end[i-1]) < d {
+						afterReturnOK = false
+					}
+					if begin[i].Sub(begin[i-1]) < took[i-1]+d {
+						startsOK = false
+					}
+					if elapsed[i]-elapsed[i-1] < took[i-1]+d {
+						elOK = false
+					}
+					need += d
+				}
+				need += took[i]
+			}
+			totOK := total >= need && (len(elapsed) == 0 || total >= elapsed[len(elapsed)-1]+took[len(took)-1])
+			res = []int64{int64(k), int64(att), c18ErrCode(err), b2i(inputsOK), b2i(afterReturnOK), b2i(startsOK), b2i(elOK), b2i(totOK)}
 		default:
 			res = []int64{-1}
 		}
@@ -196,7 +407,8 @@ func execC18(in []int64) (out []int64) {
 	return res
 }
 
-var c18Names = map[int]string{1: "After", 2: "Before", 3: "Once", 4: "Retry", 5: "RetryWithDelay", 6: "Mixed"}
+var c18Names = map[int]string{1: "After", 2: "Before", 3: "Once", 4: "Retry", 5: "RetryWithDelay", 6: "Mixed", 7: "RetryWithDelay/slow attempts",
+	8: "After/extreme n", 9: "Before/extreme n", 10: "Retry/extreme n", 11: "After/int8 counter", 12: "Before/int8 counter"}
 
 func describeC18(in []int64) string {
 	if len(in) == 0 {
@@ -219,10 +431,32 @@ func describeC18(in []int64) string {
 	case 5:
 		n, d, x := r.Int(), r.Int(), r.Int()
 		return fmt.Sprintf("RType{%d}.RetryWithDelay(n=%d, %dms), success pattern %v", x, n, d, r.Ints())
+	case 11:
+		return fmt.Sprintf("After with an int8 counter n=%d called %d times", r.Int(), r.Int())
+	case 12:
+		def, n, m := r.I64(), r.Int(), r.Int()
+		return fmt.Sprintf("Before with an int8 counter n=%d called %d times, cache default expiry %dns, callback results %v", n, m, def, r.Ints())
+	case 8:
+		a, _ := c18Anchor(r.Int())
+		off := r.Int()
+		return fmt.Sprintf("After(n=%d) called %d times", a+off, r.Int())
+	case 9:
+		def := r.I64()
+		a, _ := c18Anchor(r.Int())
+		off, m := r.Int(), r.Int()
+		return fmt.Sprintf("Before(n=%d) called %d times, cache default expiry %dns, callback results %v", a+off, m, def, r.Ints())
+	case 10:
+		a, _ := c18Anchor(r.Int())
+		off, x := r.Int(), r.Int()
+		return fmt.Sprintf("RType{%d}.Retry(n=%d), success pattern %v", x, a+off, r.Ints())
+	case 7:
+		n, d, x := r.Int(), r.Int(), r.Int()
+		pat := r.Ints()
+		return fmt.Sprintf("RType{%d}.RetryWithDelay(n=%d, %dms), success pattern %v, attempt durations in half-delays %v", x, n, d, pat, r.Ints())
 	case 6:
 		def, a, b := r.I64(), r.Int(), r.Int()
 		rs := r.Ints()
-		names := []string{"Before(&A)", "Before(&B)", "Once", "Delete(func)"}
+		names := []string{"Before(&A)", "Before(&B)", "Once", "Delete(func)", "Flush()", "sleep past the expiry"}
 		s := ""
 		for _, o := range r.Ints() {
 			if o >= 0 && o < len(names) {
@@ -235,6 +469,7 @@ func describeC18(in []int64) string {
 }
 
 const c18Hour = int64(3600) * int64(time.Second)
+const c18Short = int64(50) * int64(time.Millisecond)
 
 func genC18(g *Gen) {
 	emit := func(stream string, nt bool, w *W) {
@@ -271,6 +506,61 @@ func genC18(g *Gen) {
 			emit("exhaustive", m >= 2, (&W{}).Int(3).I64(def).Int(m).Ints([]int{0, 3}))
 		}
 	}
+	// ---- extreme counters (both tiers): n at and around MaxInt, MinInt, +-2^31, +-2^62 with few calls — the callback
+	// must simply never / always run, and the counter must come back intact (no narrower type, no saturation) ----
+	for code := 1; code <= 6; code++ {
+		for off := -3; off <= 3; off++ {
+			if (code == 1 && off > 0) || (code == 2 && off < 0) {
+				continue // not an int
+			}
+			for _, m := range []int{0, 1, 2, 5} {
+				// within reach of MinInt the counter must come to rest there (it wrapped before repair ddacf7d)
+				if code == 2 && m > off {
+					g.Count("extreme: more calls than the distance to math.MinInt")
+				}
+				emit("extreme", m >= 2, (&W{}).Int(8).Int(code).Int(off).Int(m))
+				emit("extreme", m >= 2, (&W{}).Int(9).I64(0).Int(code).Int(off).Int(m).Ints(seqInts(10, 6)))
+			}
+			// Retry(huge): stops at the first success, never counts to n; Retry(very negative): the error
+			for _, pat := range [][]int{{1}, {0, 0, 1}, {0, 0, 0, 0, 0, 1, 0}} {
+				emit("extreme", len(pat) >= 2, (&W{}).Int(10).Int(code).Int(off).Int(off*5+code).Ints(pat))
+			}
+		}
+	}
+	// ---- a counter of a narrow type (both tiers): After / Before are generic in V; with V = int8 the smallest value is
+	// 128 calls away: the counter must rest at -128, After keeps running, Before never runs again ----
+	for _, n := range []int{-128, -127, -100, -2, 0, 1, 5, 100, 127} {
+		for _, m := range []int{0, 1, 30, 129, 130, 257, 300, 600} {
+			rest := n-m <= -128
+			if rest {
+				g.Count("int8 counter reaches -128")
+			}
+			emit("int8", m >= 2, (&W{}).Int(11).Int(n).Int(m))
+			emit("int8", m >= 2, (&W{}).Int(12).I64(0).Int(n).Int(m).Ints(seqInts(10, 8)))
+		}
+	}
+	// ---- large counters (both tiers): n = 100 and 1000 with several hundred / thousand calls: a counter kept in a
+	// narrower type, or a threshold compared modulo something, shows only here ----
+	for _, n := range []int{100, 127, 128, 255, 256, 1000} {
+		for _, m := range []int{n - 1, n, n + 1, n + 150, 2*n + 77} {
+			emit("large", true, (&W{}).Int(1).Int(n).Int(m))
+			emit("large", true, (&W{}).Int(2).I64(0).Int(n).Int(m).Ints(seqInts(1000, n+5)))
+		}
+		for _, f := range []int{0, n - 2, n - 1, n, n + 3} { // first success at invocation f (>= n: exhausted)
+			pat := make([]int, n+5)
+			if f < len(pat) {
+				pat[f] = 1
+			}
+			emit("large", true, (&W{}).Int(4).Int(n).Int(n).Ints(pat))
+		}
+		emit("large", true, (&W{}).Int(4).Int(n).Int(-n).Ints(nil))
+	}
+	// (the model runner counts in unary: a few thousand calls per case is what it can afford; 2^15 / 2^16 calls are
+	// covered by the +-2^31 and +-2^62 anchors only as far as the TYPE of the counter goes)
+	for _, n := range []int{4095, 4096} {
+		emit("large", true, (&W{}).Int(1).Int(n).Int(n+3))
+		emit("large", true, (&W{}).Int(2).I64(0).Int(n).Int(n+3).Ints([]int{7}))
+	}
 	// ---- exhaustive: Retry, n in -2..8 x every success/failure pattern of length 0..8 ----
 	for n := -2; n <= 8; n++ {
 		seqsUpTo(2, 8, func(pat []int) {
@@ -289,12 +579,7 @@ func genC18(g *Gen) {
 		})
 	}
 	// ---- exhaustive: RetryWithDelay with real delays (wall-clock lower bounds) ----
-	type job struct {
-		in  []int64
-		nt  bool
-		obs []int64
-	}
-	var jobs []*job
+	var jobs []*c18Job
 	maxN, maxP := g.Pick(4, 8), g.Pick(4, 8)
 	for _, dms := range []int{1, 3} {
 		for n := -2; n <= maxN; n++ {
@@ -303,31 +588,52 @@ func genC18(g *Gen) {
 				for fails < len(pat) && pat[fails] == 0 {
 					fails++
 				}
-				jobs = append(jobs, &job{in: (&W{}).Int(5).Int(n).Int(dms).Int(n + 3).Ints(pat).Out(), nt: n >= 2 && fails >= 1})
+				jobs = append(jobs, &c18Job{in: (&W{}).Int(5).Int(n).Int(dms).Int(n + 3).Ints(pat).Out(), nt: n >= 2 && fails >= 1})
 			})
 		}
 	}
 	// the delays are slept in parallel (only lower bounds are checked, so load cannot produce a false alarm)
-	var wg sync.WaitGroup
-	ch := make(chan *job)
-	for w := 0; w < 6; w++ {
-		wg.Add(1)
-		go func() {
-			defer wg.Done()
-			for j := range ch {
-				j.obs = execC18(j.in)
+	flush := func(stream, count string) {
+		c18Parallel(jobs, 48)
+		for _, j := range jobs {
+			g.Count(count)
+			g.Raw(stream, j.nt, j.in, j.obs)
+		}
+		jobs = nil
+	}
+	flush("exhaustive", "RetryWithDelay")
+	// ---- exhaustive: RetryWithDelay with SLOW attempts: every gap is checked from the return of an attempt to the
+	// start of the next, for every assignment of a duration in {0, d/2, 2.5d} to every attempt ----
+	maxS := g.Pick(4, 5)
+	for _, dms := range []int{2, 4}[:g.Pick(1, 2)] {
+		for n := -1; n <= maxS; n++ {
+			for f := 0; f <= maxS; f++ { // first success at invocation f; f == maxS: none within reach
+				pat := make([]int, f+1)
+				if f < maxS {
+					pat[f] = 1
+				}
+				calls := 0
+				if n > 0 {
+					calls = n
+					if f < maxS && f+1 < n {
+						calls = f + 1
+					}
+				}
+				seqsExact(3, calls, func(sel []int) {
+					durs := make([]int, len(sel))
+					slow := 0
+					for i, v := range sel {
+						durs[i] = []int{0, 1, 5}[v]
+						if v > 0 && i+1 < len(sel) {
+							slow++
+						}
+					}
+					jobs = append(jobs, &c18Job{in: (&W{}).Int(7).Int(n).Int(dms).Int(n + 3).Ints(pat).Ints(durs).Out(), nt: slow >= 1})
+				})
 			}
-		}()
+		}
 	}
-	for _, j := range jobs {
-		ch <- j
-	}
-	close(ch)
-	wg.Wait()
-	for _, j := range jobs {
-		g.Count("RetryWithDelay")
-		g.Raw("exhaustive", j.nt, j.in, j.obs)
-	}
+	flush("exhaustive", "RetryWithDelay/slow attempts")
 	// ---- exhaustive: mixed histories on one cache ----
 	maxOps := g.Pick(5, 7)
 	for _, ab := range [][2]int{{1, 1}, {2, 1}, {0, 2}, {3, 2}} {
@@ -339,6 +645,23 @@ func genC18(g *Gen) {
 			emit("exhaustive", len(kinds) >= 3, (&W{}).Int(6).I64(0).Int(ab[0]).Int(ab[1]).Ints(seqInts(10, 2*len(ops)+2)).Ints(ops))
 		})
 	}
+	// ---- exhaustive: histories with Flush and real expiry (default expiry 50ms, op 5 sleeps past it) ----
+	expOps := g.Pick(4, 5)
+	pairs := [][2]int{{1, 1}, {2, 0}, {0, 2}, {3, 2}}[:g.Pick(2, 4)]
+	for _, ab := range pairs {
+		slicesOver([]int{0, 1, 2, 4, 5}, expOps, func(ops []int) {
+			kinds := map[int]bool{}
+			for _, o := range ops {
+				kinds[o] = true
+			}
+			if kinds[5] {
+				g.Count("Mixed: history with a sleep past the expiry")
+			}
+			jobs = append(jobs, &c18Job{in: (&W{}).Int(6).I64(c18Short).Int(ab[0]).Int(ab[1]).Ints(seqInts(10, 2*len(ops)+2)).Ints(ops).Out(),
+				nt: kinds[5] && len(kinds) >= 3})
+		})
+	}
+	flush("exhaustive", "Mixed")
 	g.Exhaustive("exhaustive")
 	// ---- malformed / boundary ----
 	emit("malformed", true, (&W{}).Int(1).Int(1<<40).Int(3))
@@ -351,6 +674,9 @@ func genC18(g *Gen) {
 	emit("malformed", true, (&W{}).Int(5).Int(3).Int(0).Int(0).Ints([]int{0, 0, 0}))
 	emit("malformed", true, (&W{}).Int(5).Int(3).Int(-5).Int(0).Ints([]int{0, 0, 0}))
 	emit("malformed", true, (&W{}).Int(6).I64(c18Hour).Int(-3).Int(0).Ints(nil).Ints([]int{3, 3, 0, 1, 2, 3, 2}))
+	emit("malformed", true, (&W{}).Int(6).I64(-1).Int(1).Int(-1).Ints([]int{4}).Ints([]int{5, 0, 5, 4, 1, 2, 5, 0, 2}))
+	emit("malformed", true, (&W{}).Int(7).Int(3).Int(0).Int(0).Ints([]int{0, 0, 0}).Ints([]int{5, 5, 5}))
+	emit("malformed", true, (&W{}).Int(7).Int(2).Int(1).Int(0).Ints(nil).Ints([]int{1, 99, 3, 3}))
 	// ---- seeded random, larger ----
 	nr := g.Pick(3000, 40000)
 	for i := 0; i < nr; i++ {
@@ -382,17 +708,61 @@ func genC18(g *Gen) {
 		case 4:
 			ops := make([]int, g.Rng.Intn(24))
 			kinds := map[int]bool{}
+			short := g.Rng.Intn(25) == 0 // a few long histories with real expiry
+			if short {
+				def = c18Short
+			}
+			sleeps := 0
 			for j := range ops {
-				ops[j] = []int{0, 0, 1, 1, 2, 2, 3}[g.Rng.Intn(7)]
+				ops[j] = []int{0, 0, 1, 1, 2, 2, 3, 4, 5}[g.Rng.Intn(9)]
+				// never sleep for an hour; at most 3 real sleeps per history
+				if ops[j] == 5 && (def == c18Hour || (short && sleeps >= 3)) {
+					ops[j] = 4
+				}
+				if ops[j] == 5 {
+					sleeps++
+				}
 				kinds[ops[j]] = true
 			}
-			emit("random", len(kinds) >= 3, (&W{}).Int(6).I64(def).Int(g.Rng.Intn(8)-1).Int(g.Rng.Intn(8)-1).
-				Ints(randSlice(g.Rng, 30, -3, 3)).Ints(ops))
+			in := (&W{}).Int(6).I64(def).Int(g.Rng.Intn(8) - 1).Int(g.Rng.Intn(8) - 1).
+				Ints(randSlice(g.Rng, 30, -3, 3)).Ints(ops)
+			if short {
+				jobs = append(jobs, &c18Job{in: in.Out(), nt: len(kinds) >= 3})
+			} else {
+				emit("random", len(kinds) >= 3, in)
+			}
 		}
 	}
+	flush("random", "Mixed")
+}
+
+type c18Job struct {
+	in  []int64
+	nt  bool
+	obs []int64
+}
+
+// c18Parallel executes cases that mostly sleep on a pool of goroutines.
+func c18Parallel(jobs []*c18Job, workers int) {
+	var wg sync.WaitGroup
+	ch := make(chan *c18Job)
+	for w := 0; w < workers; w++ {
+		wg.Add(1)
+		go func() {
+			defer wg.Done()
+			for j := range ch {
+				j.obs = execC18(j.in)
+			}
+		}()
+	}
+	for _, j := range jobs {
+		ch <- j
+	}
+	close(ch)
+	wg.Wait()
 }
 
 func init() {
 	register(&Prop{ID: "C18", Exec: execC18, Gen: genC18, Describe: describeC18,
-		Rule: "exhaustive: After and Before for every n in -2..8 x 0..12 calls (Before on caches with default expiry 0 / NoExpiration / 1h, distinct and repeating callback results), Once for 0..12 calls, Retry for every n in -2..8 x every success/failure pattern of length 0..8, RetryWithDelay(d in {1ms,3ms}) for n in -2..4 x patterns of length <= 4 (thorough: -2..8 x <= 8) with wall-clock lower bounds, and every history of length <= 5 (thorough 7) over {Before(&A), Before(&B), Once, Delete(\"func\")} on one shared cache for 4 counter pairs; then seeded random (n up to 44, up to 69 calls, patterns up to 49). Every callback counts its invocations per wrapper call. non-trivial = the history crosses the threshold (calls > n >= 1) / Once called >= 2 times / Retry with n >= 2 and >= 1 failure before the outcome / mixed history using >= 3 of the 4 operations; distinct = distinct wire input"})
+		Rule: "exhaustive: After and Before for every n in -2..8 x 0..12 calls (Before on caches with default expiry 0 / NoExpiration / 1h, distinct and repeating callback results), Once for 0..12 calls, Retry for every n in -2..8 x every success/failure pattern of length 0..8, RetryWithDelay(d in {1ms,3ms}) for n in -2..4 x patterns of length <= 4 (thorough: -2..8 x <= 8) with instant callbacks, RetryWithDelay(d = 2ms; thorough also 4ms) for n in -1..4 (thorough 5) x first success at every position or none x EVERY assignment of a duration in {0, d/2, 2.5d} to every attempt — each gap measured from the return of an attempt to the start of the next, all timing checks being lower bounds — every history of length <= 5 (thorough 7) over {Before(&A), Before(&B), Once, Delete(\"func\")} on one shared non-expiring cache for 4 counter pairs, and every history of length <= 4 (thorough 5) over {Before(&A), Before(&B), Once, Flush(), sleep past the expiry} on a cache with a 50ms default expiry for 2 (thorough 4) counter pairs; extreme: After, Before and Retry with n at and within 3 of MaxInt, MinInt, +-2^31, +-2^62 and 0..5 calls; int8: After and Before instantiated with an int8 counter, n in {-128,-127,-100,-2,0,1,5,100,127} x up to 600 calls; large: n in {100,127,128,255,256,1000,4095,4096} with up to 2n+77 calls and Retry patterns of n+5; then seeded random (n up to 44, up to 69 calls, patterns up to 49, mixed histories up to 23 operations incl. Flush and sleeps, 1 in 25 with real 50ms expiry). Every callback counts its invocations per wrapper call. non-trivial = the history crosses the threshold (calls > n >= 1) / Once called >= 2 times / Retry with n >= 2 and >= 1 failure before the outcome / slow-attempt case with >= 1 slow attempt that is followed by another attempt / mixed history using >= 3 kinds of operation (expiry family: a sleep and >= 2 other kinds) / extreme and int8 with >= 2 calls; distinct = distinct wire input"})
 }
